@@ -3,7 +3,7 @@
 From Coq Require Import ZArith List Lia Bool.
 From Coq Require Import ZifyBool.
 From RTP Require Import Base.Bits Base.Res Base.ListX Base.Bytes Base.Tactics.
-From RTP Require Import Model.RtpPacket Spec.Rfc8285 Spec.Rfc3550 Proofs.ExtLoop.
+From RTP Require Import Model.RtpPacket Spec.Rfc8285 Spec.Rfc3550 Proofs.ExtLoop Proofs.ExtForm.
 Import ListNotations.
 Open Scope Z_scope.
 
@@ -71,8 +71,8 @@ Lemma decode_block : forall b rest n (mk : Z -> list ext -> header),
       let n4 := n + 4 in
       let ext_end := n4 + ext_len in
       if zlen le <? ext_len then Err EShort
-      else if (profile =? profile_one_byte) || (profile =? profile_two_byte)
-           then bind (parse_exts (S (length le)) (profile =? profile_two_byte) le n4 ext_end [] [])
+      else if (profile =? profile_one_byte) || (ext_form profile =? profile_two_byte)
+           then bind (parse_exts (S (length le)) (ext_form profile =? profile_two_byte) le n4 ext_end [] [])
                      (fun '(exts, offs, nf, rest) => Ok (mkHdrResult (mk profile exts) nf offs rest))
            else Ok (mkHdrResult (mk profile [mkExt 0 (take ext_len le)]) ext_end [n4] (drop ext_len le))
   | _ => Err EShort
@@ -91,23 +91,25 @@ Proof.
   rewrite zlen_app. pose proof (zlen_nonneg rest).
   case_if; [lia|].
   rewrite !zlen_cons.
-  destruct b as [|items|items|p body]; [discriminate| | |].
+  destruct b as [|items|ab items|p body]; [discriminate| | |].
   - (* one-byte *)
     cbn [block_profile block_body block_elems] in *.
-    change (48862 =? profile_one_byte) with true. change (48862 =? profile_two_byte) with false.
+    change (48862 =? profile_one_byte) with true. change (ext_form 48862 =? profile_two_byte) with false.
     cbn [orb].
     rewrite parse_exts_items1 by (auto; rewrite app_length; lia).
     cbn [bind rev app]. eexists. f_equal. f_equal. lia.
   - (* two-byte *)
-    cbn [block_profile block_body block_elems] in *.
-    change (4096 =? profile_one_byte) with false. change (4096 =? profile_two_byte) with true.
+    cbn [block_profile block_body block_elems] in *. destruct Hwf as [Hab Hwf].
+    change 4096 with profile_two_byte. rewrite (ext_form_two ab Hab), Z.eqb_refl.
+    replace (profile_two_byte + ab =? profile_one_byte) with false by (unfold profile_two_byte, profile_one_byte; lia).
     cbn [orb].
     rewrite parse_exts_items2 by (auto; rewrite app_length; lia).
     cbn [bind rev app]. eexists. f_equal. f_equal. lia.
   - (* legacy *)
     cbn [block_profile block_body block_elems] in *. destruct Hwf as (Hp & Hn1 & Hn2).
-    unfold profile_one_byte, profile_two_byte.
-    destruct (p =? 48862) eqn:E1; [lia|]. destruct (p =? 4096) eqn:E2; [lia|]. cbn [orb].
+    rewrite (ext_form_is_two p Hp).
+    replace (p =? profile_one_byte) with false by (unfold profile_one_byte; lia).
+    replace ((4096 <=? p) && (p <? 4112)) with false by lia. cbn [orb].
     rewrite take_app_exact, drop_app_exact. eexists. f_equal. f_equal. lia.
 Qed.
 
